@@ -1,5 +1,6 @@
 import DriverLib.Basic
 import QV.Model.Train
+import QV.Model.LambdaCb
 open Lean Drv QV.Train
 
 namespace Drv.C12
@@ -101,6 +102,62 @@ def runIn (j : Json) : R Run := do
     hasSched := ← jBool (← fld j "hasSched") }
   return { pre := pre, args := args, req := ← reqIn j }
 
+def slots : Array Slot := #[.trainStart, .trainEnd, .epochStart, .epochEnd, .batchStart, .batchEnd]
+
+/-- a constructor argument: `null` (None) | `{"id": n, "nparams": k}` (callable) | `"x"` (not callable) -/
+def fnArgIn (j : Json) : R FnArg :=
+  match j with
+  | .null => .ok .none
+  | .str _ => .ok .notCallable
+  | _ => do return .fn (← jNat (← fld j "id")) (← jNat (← fld j "nparams"))
+
+def slotFn {α : Type} [Inhabited α] (a : Array α) : Slot → α := fun s => a[s.idx]!
+
+def handlerOut : Handler → Json
+  | .noop => .null
+  | .user f => nOut f
+
+/-- the six `LambdaCallback` constructor arguments, in the order of `slots` -/
+def lambdaArgsIn (j : Json) : R (Slot → FnArg) := do
+  let a ← (← jArr j).mapM fnArgIn
+  if a.size != 6 then .error "expected six handler arguments" else return slotFn a
+
+/-- op `c12.lambda_init`: `LambdaCallback.__init__` on six arguments (`QV.Train.lambdaInit`).
+out: {handlers : [null | id × 6]} or {error : kind, slot : name} -/
+def runLambdaInit (j : Json) : R Json := do
+  let a ← lambdaArgsIn (← fld j "args")
+  match lambdaInit a with
+  | .ok o => return Json.mkObj [("handlers", .arr (slots.map (fun s => handlerOut (o.get s))))]
+  | .error (e, s) => return Json.mkObj [("error", .str e.toString), ("slot", .str s.name)]
+
+/-- a callback object: `{"kind": "lambda", "args": [six constructor arguments]}` or
+`{"kind": "subclass", "overrides": [null | id × 6]}` -/
+def objIn (j : Json) : R (Except (QV.PyErr × Slot) CbObj) := do
+  match ← jStr (← fld j "kind") with
+  | "lambda" => return lambdaInit (← lambdaArgsIn (← fld j "args"))
+  | "subclass" =>
+    let a ← (← jArr (← fld j "overrides")).mapM (fun v => match v with
+      | .null => (pure none : R (Option Nat)) | v => do return some (← jNat v))
+    if a.size != 6 then .error "expected six overrides" else return .ok (subclassObj (slotFn a))
+  | k => .error s!"bad object kind {k}"
+
+/-- default object (identity not listed): a recorder overriding all six methods, function ids `10 i + slot` -/
+def defaultObj (i : Nat) : CbObj := subclassObj (fun s => some (10 * i + s.idx))
+
+/-- `objs : [[identity, object], …]` ↦ table, or the constructor error of the first object that fails -/
+def tableIn (j : Json) : R (Except (QV.PyErr × Slot) Table) := do
+  let mut tab : List (Nat × CbObj) := []
+  for p in ← jArr j do
+    let a ← jArr p
+    let i ← jNat (a[0]?.getD .null)
+    match ← objIn (a[1]?.getD .null) with
+    | .error e => return .error e
+    | .ok o => tab := (i, o) :: tab
+  let t := tab
+  return .ok (fun i => match t.find? (fun q => q.1 == i) with | some q => q.2 | none => defaultObj i)
+
+def userCallOut (p : Nat × Nat × Event) : Json := .arr #[nOut p.1, nOut p.2.1, evOut p.2.2]
+
 def outOf (r : List Entry × S) : Json :=
   Json.mkObj [
     ("log", .arr (r.1.toArray.map entryOut)),
@@ -115,17 +172,33 @@ in : stop0, runs : [{pre : null|bool, start, epochs, N, posB, negB : null|nat, h
 out: {runs : [{log, events, calls, prints, stop, ver, sched, batchesPerEpoch, cbs}, …]} or {error} -/
 def runSession (j : Json) : R Json := do
   let stop0 ← jBool (← fld j "stop0")
-  let runs ← (← jArr (← fld j "runs")).mapM runIn
+  let runs0 ← (← jArr (← fld j "runs")).mapM runIn
+  -- optional callback objects (handler subsets): requests go through `Req.via`, the log through `observe`
+  let tab : Option Table ← (match fldOpt j "objs" with
+    | none => pure none
+    | some v => do
+      match ← tableIn v with
+      | .ok t => pure (some t)
+      | .error (e, s) => .error s!"callback constructor raised {e.toString} for {s.name}" : R (Option Table))
+  let runs := match tab with
+    | none => runs0
+    | some T => runs0.map (fun (r : Run) => ({ r with req := r.req.via T } : Run))
   match session runs.toList stop0 with
   | .error e => return errOut e
   | .ok outs =>
-    let extra (r : Run) : List (String × Json) :=
+    let extra (r : Run) (o : List Entry × S) : List (String × Json) :=
       [("batchesPerEpoch", match batchesPerEpoch r.args.N r.args.posB r.args.negB r.args.hasBases with
           | .ok nb => nOut nb | .error e => errOut e),
-       ("cbs", .arr ((wrapCallbacks r.args.callbacks).toArray.map nOut))]
+       ("cbs", .arr ((wrapCallbacks r.args.callbacks).toArray.map nOut))] ++
+      (match tab with
+       | none => []
+       | some T =>
+         [("log", .arr ((observe T o.1).toArray.map entryOut)),
+          ("calls", .arr ((calls (observe T o.1)).toArray.map (fun p => .arr #[nOut p.1, evOut p.2]))),
+          ("userCalls", .arr ((userCalls T o.1).toArray.map userCallOut))])
     let js := (runs.toList.zip outs).map (fun (r, o) =>
       match outOf o with
-      | .obj _ => (outOf o).mergeObj (Json.mkObj (extra r))
+      | .obj _ => (outOf o).mergeObj (Json.mkObj (extra r o))
       | x => x)
     return Json.mkObj [("runs", .arr js.toArray)]
 
@@ -133,6 +206,7 @@ def handle (op : String) (j : Json) : Option (R Json) :=
   match op with
   | "c12.fit" => some (runFit j)
   | "c12.session" => some (runSession j)
+  | "c12.lambda_init" => some (runLambdaInit j)
   | _ => none
 
 end Drv.C12
